@@ -34,3 +34,7 @@ GENERATORS.append(_extract_drivers.gen_refs_nonlinear_solve)
 # C01: abstract syntax of EquationSolver.trust_region_minimize / is_converged / is_on_boundary / nonlinear_equation_solve (IR of model/M_C01_CFG.v)
 from . import extract_tr as _extract_tr   # noqa: E402
 GENERATORS.append(_extract_tr.gen_cfg_tr)
+
+# C14: abstract syntax of FunctionSpace.DofManager and SparseMatrixAssembler.assemble_sparse_stiffness_matrix (IR of model/M_C14_IR.v)
+from . import extract_dof as _extract_dof   # noqa: E402
+GENERATORS.append(_extract_dof.gen_cfg_dof)
